@@ -156,7 +156,7 @@ func init() {
 		x.call(r, func() {
 			out := decimal128.Append(buf, a, v, p)
 			r.str(prefix)
-			r.keepBytes("Append", out)
+			r.keepBytesIn("Append", out, x, op.int(2))
 			x.setBuf(op.int(2), out)
 		})
 	}).Check = func(x *Ctx, op *Op, r *Result) string {
@@ -178,7 +178,7 @@ func init() {
 		x.call(r, func() {
 			out := a.Append(buf, spec)
 			r.str(prefix)
-			r.keepBytes("Decimal.Append", out)
+			r.keepBytesIn("Decimal.Append", out, x, op.int(0))
 			x.setBuf(op.int(0), out)
 		})
 	}).Check = func(x *Ctx, op *Op, r *Result) string {
